@@ -2261,7 +2261,8 @@ def parse_item(line_tokens):
         return Constant(line, name, imm)
     # errors
     elif head == 'error':
-        _, message = tokens
+        # a bare "error" (no message) is lexed as a single token
+        message = ' '.join(tokens[1:])
         raise AssemblerError(message, line)
     # include_bytes
     elif head == 'include_bytes':
